@@ -68,8 +68,10 @@ def rmid_case(draw):
     n = draw(st.integers(1, 4))
     names = ["X", "Y", "Z", "H", "S", "T", "P", "CX", "CZ", "CP", "CCX", "SWAP", "BARRIER"]
     gl = draw(gen_circ.gate_list(n, names, 1, 8))
-    dups = [draw(st.sampled_from(["no", "no", "same", "equal", "barrier-same", "same-twice", "sandwich", "sandwich-barrier"])) for _ in gl]
-    return {"kind": "rmid", "n": n, "gates": gl, "dups": dups}
+    dups = [draw(st.sampled_from(["no", "no", "same", "equal", "barrier-same", "same-twice", "sandwich", "sandwich-barrier", "around", "around"])) for _ in gl]
+    # "around": the same gate object before and after ONE other gate that may or may not touch its qubits
+    mids = [draw(gen_circ.gate(n, ["X", "H", "Z", "S", "CX", "CZ", "SWAP", "CCX"])) for _ in gl]
+    return {"kind": "rmid", "n": n, "gates": gl, "dups": dups, "mids": mids}
 
 
 @st.composite
@@ -334,7 +336,8 @@ def judge_rmid(case):
     feats = ["rmid"]
     n = case["n"]
     qc = QCircuitEnhanced(n)
-    for (nm, qs, p), dup in zip(case["gates"], case["dups"]):
+    mids = case.get("mids") or [None] * len(case["gates"])
+    for (nm, qs, p), dup, mid in zip(case["gates"], case["dups"], mids):
         gen_circ.append_gate(qc, nm, qs, p, G)
         if nm == "BARRIER" or dup == "no":
             continue
@@ -349,6 +352,12 @@ def judge_rmid(case):
             gen_circ.append_gate(qc, nm, qs, p, G)
         elif dup == "barrier-same":
             qc.barrier()
+            qc.append(g, list(w), pp)
+        elif dup == "around":
+            if mid is not None:
+                gen_circ.append_gate(qc, mid[0], mid[1], mid[2], G)
+                if set(mid[1]) & set(w):
+                    feats.append("around-overlapping")
             qc.append(g, list(w), pp)
         elif dup in ("sandwich", "sandwich-barrier"):
             # the same gate object right before and right after a cancelling pair of another gate
